@@ -31,6 +31,7 @@ impl HalfSpace {
     /// Returns `None` if `self.normal` scaled by `scale` is zero (the scaled half-space
     /// degenerates to a single point).
     pub fn scaled(self, scale: &Vector<Real>) -> Option<Self> {
-        Unit::try_new(self.normal.component_mul(scale), 0.0).map(|normal| Self { normal })
+        // A plane normal transforms by the inverse (transpose) of the scaling.
+        Unit::try_new(self.normal.component_div(scale), 0.0).map(|normal| Self { normal })
     }
 }
